@@ -145,6 +145,9 @@ impl Table {
                 )?;
             }
         }
+        // Make sure buffered bytes reach the medium (and any error is seen)
+        // before reporting success; dropping the stream would swallow it.
+        writer.flush()?;
         Ok(())
     }
 }
